@@ -63,6 +63,9 @@ func (e *env) runBatch(jobs []rt.Params, timeout time.Duration) batchOutcome {
 	case err := <-done:
 		if err != nil {
 			out.crashed = true
+			if ee, ok := err.(*exec.ExitError); ok && ee.ExitCode() == 4 {
+				out.crashed, out.timedOut = false, true // the worker's own stall watchdog (goroutine dump in the log)
+			}
 		}
 	case <-time.After(timeout):
 		out.timedOut = true
